@@ -1093,7 +1093,7 @@ def origination(ctx):
              "number and position vector it is given; refresh_with_tpv_data returns a fresh arbitrary vector")
 
 
-@vc("C15", "X3-location-service-duplicate-replies")
+@vc("C15", "X3-location-service-duplicate-replies", tiers=("thorough",))
 def ls_two_replies(ctx):
     """the LS reply received twice concurrently (two paths): every waiting request is sent exactly once"""
     st = {}
